@@ -2190,9 +2190,17 @@ theorem toml_file_falls_back_to_ini {α : Type} (outcome : ParserKind → Option
     compositeParse outcome (some "./pyproject.toml".toList) pydoctorParsers = some r := by
   rw [(composite_fallback outcome _).2.1 ht, hi]
 
-/-- hunt/C20/1: with the config-file option in the table (as `ValidatorParser` builds it) the key `config` is known:
-no warning, and the item only becomes a late `--config=…` argument — no file is read for it -/
-theorem config_key_counterexample :
+/-- hunt/C20/1, since /repo commit 6190835: `ValidatorParser` does not count the keys of the config-file option as known,
+so `config = …` in a file is an unknown key like any other: warned about once, not applied (instance of
+`unknown_key_filtered` on a table without that option) -/
+theorem config_key_unknown :
+    (validate exTable [("config".toList, .str "extra.ini".toList), ("project-name".toList, .str "x".toList)]).2 = ["config".toList] ∧
+    (mergeFile exTable [] [("config".toList, .str "extra.ini".toList), ("project-name".toList, .str "x".toList)]).val =
+      some [parseArg "--project-name=x".toList] := by decide +kernel
+
+/-- HISTORICAL counterexample (fixed by 6190835): with the config-file option in the validator's table the key `config` was
+known: no warning, and the item only became a late `--config=…` argument — no file was read for it -/
+theorem config_key_old_counterexample :
     (validate (⟨["-c".toList, "--config".toList], .store⟩ :: exTable) [("config".toList, .str "extra.ini".toList)]).2 = [] ∧
     (mergeFile (⟨["-c".toList, "--config".toList], .store⟩ :: exTable) [] [("config".toList, .str "extra.ini".toList)]).val =
       some [parseArg "--config=extra.ini".toList] := by decide +kernel
